@@ -253,6 +253,25 @@ fn enumerate(thorough: bool) -> EnumFn {
                 last = next;
             }
         }
+        // (g) strings the server itself produces or contains as literals (markers, canonical forms of special values),
+        //     bare and in the places where a client could send them back
+        {
+            let deleted_topic = TopicName::deleted().to_string();
+            let mut lits: Vec<String> = vec!["_deleted_topic_".into(), "_deleted_topic".into(), "deleted_topic_".into(), deleted_topic.clone()];
+            for l in lits.clone() {
+                lits.push(format!("projects/{}", l));
+                lits.push(format!("projects/p/{}", l));
+                lits.push(format!("topics/{}", l));
+                lits.push(format!("/topics/{}", l));
+                lits.push(format!("/subscriptions/{}", l));
+                lits.push(format!("{}/", l));
+                lits.push(format!("/{}", l));
+                lits.push(l.to_uppercase());
+            }
+            for l in &lits {
+                acc.case(l);
+            }
+        }
         // plainly valid names must be accepted (a reject-everything parser would satisfy everything above)
         for (s, is_topic) in PLAINLY_VALID {
             if only.is_some() && only != Some(s) {
